@@ -173,16 +173,43 @@ COMPOSITES.update({
                                       V("env", dict(complex="envdatadesc", param="d", datas=[
                                           dict(name="one", dtcs=[1, 2], params=[V("x", U8)]),
                                           dict(name="nine", dtcs=[9], params=[V("y", U16)])]))]},
+    "env-data-in-field": {"params": [SID, V("recs", dict(complex="eopfield", structure=dict(params=[
+        V("d", dict(dt="A_UINT32", bl=8)),
+        V("env", dict(complex="envdatadesc", param="d", datas=[
+            dict(name="one", dtcs=[1, 2], params=[V("temperature", U8)]),
+            dict(name="nine", dtcs=[9], params=[V("pressure", U8)])]))])))],
+        "counts": [1, 2, 3]},
+    "dynlen-field-minmax-item-at-end": {"params": [SID, V("f", dict(
+        complex="dynlenfield", count_dop=U8, offset=1,
+        structure=dict(params=[V("t", U8), V("d", dict(dt="A_BYTEFIELD", dct="minmax", min=0, max=3,
+                                                        term="HEX-FF"))])))],
+        "counts": [1, 2], "blens": [0, 1, 3]},
+    "minmax-in-structure": {"params": [SID, V("st", S([V("d", dict(dt="A_BYTEFIELD", dct="minmax", min=1,
+                                                                    max=4, term="ZERO")), V("t", U8)])),
+                                       TAIL], "blens": [1, 2, 4]},
+    "length-key-bitpos": {"params": [SID, dict(kind="lengthkey", name="lk", id="LK3",
+                                               dop=dict(dt="A_UINT32", bl=6), bitpos=4),
+                                     V("data", dict(dt="A_UINT32", dct="paramlen", length_key="LK3")),
+                                     TAIL], "lengths": [8, 16]},
     "dtc": {"params": [SID, V("d", dict(complex="dtc", dt="A_UINT32", bl=24, dtcs=DTCS)), TAIL]},
     "dtc-lowhigh": {"params": [SID, V("pre", U8), V("d", dict(complex="dtc", dt="A_UINT32", bl=24,
                                                                 hl=False, dtcs=DTCS))]},
 })
 
+RESPONSES_EXTRA = {
+    "nrc-response": {"params": [C("sid", 0x7F, bytepos=0), dict(kind="matchreq", name="rsid", rqpos=0, len=1),
+                                dict(kind="nrcconst", name="nrc", type={"dt": "A_UINT32", "bl": 8},
+                                     values=[0x11, 0x31]), V("extra", U8)], "request_len": [1, 2]},
+}
 RESPONSES = {
     "matching-request": {"params": [C("sid", 0x62, bytepos=0),
                                     dict(kind="matchreq", name="echo", rqpos=1, len=2),
                                     V("a", U8), TAIL], "request_len": [2, 3, 4]},
 }
+
+
+# descriptions that only make sense for decoding (an NRC-CONST is not written by the encoder)
+DECODE_ONLY_RESPONSES = RESPONSES_EXTRA
 
 
 # ---------------------------------------------------------------------------
@@ -268,6 +295,9 @@ def _mark(env, pos, bitpos, nbits, hl):
 def ref_params(p, origin, cursor, params, vals, at_end, env):
     """lays the parameters out; returns the first byte after the right-most parameter"""
     end = cursor
+    for prm in params:  # explicit length keys are known before their users are laid out
+        if prm["kind"] == "lengthkey" and vals.get(prm["name"]) is not None:
+            env.setdefault("lengths", {})[prm["id"]] = vals[prm["name"]]
     for i, prm in enumerate(params):
         last = i == len(params) - 1
         pos = origin + prm["bytepos"] if prm.get("bytepos") is not None else cursor
@@ -299,6 +329,11 @@ def ref_params(p, origin, cursor, params, vals, at_end, env):
             n = ref_dop(p, pos, bitpos, prm["dop"], v, at_end and last, env)
         elif k == "reserved":
             n = (bitpos + prm["bl"] + 7) // 8
+            p.ensure(pos + n)
+        elif k == "nrcconst":
+            # NRC-CONST parameters are not written by the encoder (an overlapping VALUE parameter
+            # would): the bits stay zero
+            n = (bitpos + prm["type"]["bl"] + 7) // 8
             p.ensure(pos + n)
         elif k == "matchreq":
             rq = env["request"]
@@ -373,6 +408,20 @@ def ref_dop(p, pos, bitpos, d, v, at_end, env):
         if not s_or(*[v == x["code"] for x in d["dtcs"]]):
             raise odxref.Reject("trouble code is not described")
         return p.put_field(pos, bitpos, d["bl"], v, d.get("hl") in (None, True))
+    if k is None and d["dt"] == "A_BYTEFIELD" and d.get("dct") == "minmax":
+        if bitpos or len(v) < d["min"] or (d.get("max") is not None and len(v) > d["max"]):
+            raise odxref.Reject("length outside MIN-LENGTH..MAX-LENGTH")
+        term = {"ZERO": [0], "HEX-FF": [0xFF], "END-OF-PDU": []}[d["term"]]
+        if term:
+            hits = [v[o] == term[0] for o in range(d["min"], len(v))]
+            if hits and s_or(*hits):
+                raise odxref.Reject("value contains the termination byte")
+        n = p.put_bytes(pos, v)
+        if d["term"] == "END-OF-PDU" and not at_end:
+            raise odxref.Reject("END-OF-PDU termination away from the end")
+        if not at_end and len(v) != d.get("max"):
+            n += p.put_bytes(pos + n, term)
+        return n
     if k is None and d["dt"] == "A_BYTEFIELD":
         if d.get("dct") == "leading":
             if len(v) >= (1 << d["bl"]):
@@ -509,6 +558,8 @@ def expected(params, vals):
             out[nm] = None  # undescribed bits (or a covered termination value)
         elif k == "matchreq":
             out[nm] = None  # compared separately
+        elif k == "nrcconst":
+            out[nm] = None
     return out
 
 
@@ -562,7 +613,8 @@ def require_same(sx, got, want, label, path=""):
 def build_composite(cfg):
     import odxtools.request  # noqa
     import odxtools.isotp_state_machine  # noqa
-    spec = (COMPOSITES if cfg["what"] == "request" else RESPONSES)[cfg["name"]]
+    spec = (COMPOSITES if cfg["what"] == "request" else
+            {**RESPONSES, **DECODE_ONLY_RESPONSES})[cfg["name"]]
     b = build.Builder()
     obj = b.request(spec) if cfg["what"] == "request" else b.response(spec)
     b.resolve()
